@@ -184,6 +184,11 @@ class BuiltWorld:
         bk = body if isinstance(body, str) else body["k"]
         if bk == "leaf":
             lines.append(f"    return R_{mid}")
+        elif bk == "leaf_rw":
+            # never executed, but makes the library rewrite (recode) this method
+            lines.append("    if BUDGET[0] < -99:")
+            lines.append("        recurse()")
+            lines.append(f"    return R_{mid}")
         elif bk == "raise":
             e = RuntimeError(f"exc:{mid}")
             self.exc[mid] = e
@@ -271,12 +276,35 @@ class BuiltWorld:
             __name__="vfworld",
         )
         src = []
+        made = []   # (method, factory name): methods produced by one shared def (same code object)
         for m in w["methods"]:
-            src.append(self.method_source(m, fname=f"F{m.get('f', 1)}"))
+            if m.get("factory") and not m["kwn"] and m["reqpos"] == len(m["pos"]) and m.get("body") in ("next", "leaf"):
+                npos = len(m["pos"])
+                fac = f"_fac_{npos}_{m['body']}"
+                if not any(f == fac for _, f in made):
+                    names = ", ".join(f"p{i + 1}" for i in range(npos))
+                    body = [f"def {fac}(mid_, ret_):", f"    def fm({names}):",
+                            f"        _e = [mid_, [{names}], {{}}, None, None]", "        LOG.append(_e)"]
+                    if m["body"] == "next":
+                        body += [f"        _e[3] = ([{names}], {{}})", f"        return call_next({names})"]
+                    else:
+                        body += ["        return ret_"]
+                    body += ["    return fm"]
+                    src.append("\n".join(body) + "\n")
+                made.append((m, fac))
+            else:
+                src.append(self.method_source(m, fname=f"F{m.get('f', 1)}"))
         code = "\n".join(src)
         self.filename = f"<vf:{next(_serial)}>"
         linecache.cache[self.filename] = (len(code), None, code.splitlines(True), self.filename)
         exec(compile(code, self.filename, "exec"), ns, ns)
+        for m, fac in made:
+            r = Sentinel(f"ret:{m['id']}")
+            self.ret[m["id"]] = r
+            fn = ns[fac](m["id"], r)
+            fn.__name__ = m["id"]
+            fn.__annotations__ = {f"p{i + 1}": eval(self.type_expr(t), ns) for i, t in enumerate(m["pos"])}
+            ns[m["id"]] = fn
         for m in w["methods"]:
             self.mfun[m["id"]] = ns[m["id"]]
         self.src = code
